@@ -1501,7 +1501,17 @@ func (w *World) knownStall(h, head uint64) string {
 		}
 	}
 	item := w.full.M.DataCache().GetItem(h + 1)
-	if !seen || (item != nil && bytes.Equal(item.DACommitment(), dc)) {
+	if item != nil && bytes.Equal(item.DACommitment(), dc) {
+		return ""
+	}
+	if !seen {
+		// since /repo c3c43a6 data is marked as seen only when its block is applied: the junk-replaced stall no longer
+		// shows in the seen-set.  Its cause is then visible as: the genuine data of h+1 AND a junk item naming h+1 were
+		// handed to the running node, and the slot at h+1 holds something else (the junk) or nothing (dropped when the
+		// header arrived).  The P2P data store hands every height over once, so nothing delivers the genuine data again.
+		if w.gaveJ[h+1] && w.gaveD[h+1] {
+			return "C02/stall/junk-p2p-data-replaced-cached-data"
+		}
 		return ""
 	}
 	if w.gaveJ[h+1] {
